@@ -65,6 +65,7 @@ async fn run_authz(ops: &[String], model: &mut Option<ModelProc>) -> Result<Case
         rf.track(op);
         if head == "auth" || head == "names" {
             let dec = got.split(' ').nth(1).unwrap_or("");
+            if let Some(w) = got.split(' ').find_map(|x| x.strip_prefix("why=")) { out.hits.push(format!("stage:{}", w.split(':').next().unwrap_or(w))); }
             out.hits.push(if got.starts_with("ok ") { format!("decision:{dec}") } else if got.starts_with("held") { "names".into() } else { format!("answer:{got}") });
             if got.contains("used=kip:grant") { out.hits.push("witness:grant".into()); out.nontrivial = true; }
             if got.contains("used=kip:delegation") { out.hits.push("witness:delegation".into()); out.nontrivial = true; }
